@@ -103,10 +103,10 @@ Definition explain_C09 (p : N) : list N :=
   | 1%N => []
   | 2%N => [13; 14]%N
   | 3%N => [13]%N
-  | 4%N => [13; 14; 15; 17; 18; 19]%N
-  | 5%N => [13; 14; 17; 18; 19]%N
+  | 4%N => [13; 14; 15; 17; 18]%N
+  | 5%N => [13; 14; 17; 18]%N
   | 6%N => [2; 13; 14]%N
-  | 7%N => [2; 13; 14; 17; 18; 19]%N
+  | 7%N => [2; 13; 14; 17; 18]%N
   | _ => []
   end.
 
@@ -136,7 +136,7 @@ Definition explain_C09 (p : N) : list N :=
    15 inline of a note from another directory that holds inline note links
    17 the result holds a heading deeper than 6 (inline below a deep section)
    18 the result holds two lists of the same type side by side
-   19 the result holds a rule or table right under the text of a tight item *)
+   (19 - a rule or table right under the text of a tight item - is repaired in the writer, F-TIGHTTAIL) *)
 Definition eval_act (c : actcase) (g : graph) (a : act_obs) : list N * list N :=
   let lc := ac_lib c in
   let s := ao_first a in
@@ -163,8 +163,7 @@ Definition eval_act (c : actcase) (g : graph) (a : act_obs) : list N * list N :=
     end in
   let cls := cls ++
     flag 17 (negb (existsb (fun bs => Nat.ltb 6 (max_levels bs)) result_blocks)) ++
-    flag 18 (negb (existsb adjacent_lists result_blocks)) ++
-    flag 19 (forallb (forallb g_calm) result_blocks) in
+    flag 18 (negb (existsb adjacent_lists result_blocks)) in
   match st_changes s with
   | Panic _ => explain_fails explain_C09 [1%N] cls
   | Ok l =>
